@@ -42,6 +42,7 @@ pub fn begin_call(opi: i32) {
         w.exec_before = state::executions_count().unwrap_or(0);
         w.stats.ops_run += 1;
         w.glue_targets.clear();
+        w.ptr_ops_in_callbacks = false;
         w.flags.fin_in_collector_call = 0;
         w.flags.rc_drops_in_call = 0;
         w.flags.rc_drop_hist_in_call = false;
@@ -269,6 +270,7 @@ pub fn do_op(op: &Op) {
                         h.cc.mark_alive();
                     }
                     w.objs[oid as usize].unbuffer_ops += 1;
+                    buf_leave(oid);
                 }
             });
         }
@@ -296,6 +298,7 @@ pub fn do_op(op: &Op) {
                         w.objs[oid as usize].side_rec = b.addr;
                     }
                     w.weaks.push(Some(WeakE { target: Some(oid), w: wk }));
+                    buf_leave(oid);
                     w.note(|| format!("downgrade obj{}", oid));
                 }
             });
@@ -542,6 +545,7 @@ fn do_register(h: Sel, act: &[ActOp], cap: Option<Sel>, weak_owner: bool) {
                 }
             }
             *w.extra_weak.entry(hoid).or_insert(0) += 1;
+            buf_leave(hoid);
             Some((hoid, wk))
         })
     } else {
@@ -638,6 +642,7 @@ fn run_action(env: &mut ActionEnv) {
             w.violation(&["C12"], "is-tracing-in-action", sig, "is_tracing() == true inside a cleaning action".into(), false);
         }
         let manual = w.clean_calls.last() == Some(&w.frames.len());
+        w.ptr_ops_in_callbacks = true;
         w.frames.push(Frame { kind: Fk::Action, oid: owner, collecting: flags.0, in_batch: false, manual });
         owner
     });
